@@ -4,7 +4,7 @@ Oracle: reference decoder applied to the very same (corrupted) byte stream; queu
 import hashlib
 
 from .. import gen, model, runner, spec_lowlevel as S
-from ..scen import Scn, call, raw
+from ..scen import Scn, call, raw, up
 from .C01 import bus_lines, ADDRS
 
 STALL = 0x8E
@@ -174,7 +174,7 @@ def evaluate(ctx, r, expect, meta):
 def run(ctx):
     ctx.rule = ('streams of 1-40 packets x 1-6 messages (any type code but MSG_STALL, address depth 0-3, hot bytes FE/FD, unique ids, arbitrary '
                 'sequence numbers), ~35% of packets corrupted (bit flip, dropped/inserted byte, extra/duplicated delimiters, truncation, '
-                'stray escape), four chunkings of the read polls; plus round trip of the library\'s own sender output. non-trivial = '
+                'stray escape), four chunkings of the read polls; plus normal-mode histories (multi-message packets from senders on all address levels, judged through their state effect) and the round trip of the library\'s own sender output. non-trivial = '
                 'distinct stream with a corrupted packet followed by a good one (or a non-empty round trip)')
     ctx.assumptions = ['reference receiver decoder in vlib/model.py decides which packets are good', 'packets <= 255 bytes (longer ones are C12)',
                        'low-level debug mode exposes every decoded message through bidib_read_message']
@@ -200,6 +200,46 @@ def run(ctx):
     if jobs:
         ctx.sample({'kind': jobs[0][2]['kind'], 'corruptions': jobs[0][2]['corruptions'], 'expected_messages': len(jobs[0][1]),
                     'scenario_head': jobs[0][0].split('\n')[3:6]})
+    # ---- normal mode: the decoded sender address / type / data of every message is observed through its state effect (reference fold of C07):
+    # packets bundling occupancy and address reports of boards on ALL address levels (deep sender first, shallower ones behind it, and the
+    # other way round), arbitrary sequence numbers; a packet with a broken CRC has no effect
+    from . import C07, C08
+    from .. import cfggen, statemodel
+    nj = []
+    for k in range(ctx.n(60, 3000)):
+        rng = ctx.sub_rng('normal', k)
+        cfg = C08.gen_cfg(rng)
+        for b in cfg['boards']:
+            if rng.random() < 0.6:
+                b['uid'] = bytes([b['uid'][0] | 0x80]) + b['uid'][1:]        # interfaces, so that boards sit on the second and third level
+        d = cfggen.write_config(cfg, C07.cfg_dir(f'c02n_{k}'))
+        nodes = cfggen.assign_tree(rng, cfg, absent_prob=0.0)
+        m = statemodel.Model(cfg, nodes)
+        sc = Scn(seed=ctx.seed * 37 + k, watchdog=240000)
+        sc.add(*cfggen.bus_lines(cfg, nodes), 'bus brackets 1', f'start {d} 0', 'quiesce', 'snap s0')
+        for i in range(rng.randrange(10, 50)):
+            msgs = []
+            for _ in range(rng.choice([1, 2, 3, 4, 4])):
+                g = C08.gen_bm(rng, m, cfg)
+                if g:
+                    msgs.append((g[0], model.build_msg(g[0], rng.choice([0, rng.randrange(256)]), g[1], g[2])))
+            if not msgs:
+                break
+            order = rng.random()
+            if order < 0.5:
+                msgs.sort(key=lambda x: -S.depth(x[0]))                      # deepest sender first
+            elif order < 0.7:
+                msgs.sort(key=lambda x: S.depth(x[0]))
+            sc.add(up(*[x[1] for x in msgs]), 'quiesce')
+            if rng.random() < 0.5:
+                sc.add(f'snap s{i + 1}')
+        sc.add('snap end', 'stop')
+        nj.append((sc.text(), cfg, nodes))
+    nres = runner.run_many('asan', [(i, j[0]) for i, j in enumerate(nj)], timeout=600)
+    for j, r in zip(nj, nres):
+        C07.evaluate(ctx, r, j[1], j[2], {}, {'kind': 'normal-mode', 'digest': hashlib.sha1(j[0].encode()).hexdigest()[:12]})
+        ctx.count('normal_mode_histories')
+        ctx.count('normal_mode_max_depth_3', int(any(a[2] != 0 for a, _u in j[2])))
     # ---- round trip: phase 1 produce downlink transcripts, phase 2 feed them to the receiver
     nrt = ctx.n(60, 2000)
     p1 = []
